@@ -44,6 +44,10 @@ class FieldSpec(object):
 
 
 def _text(rng, ctx, lo=1, hi=8):
+    if rng.random() < ctx.get("stopword_text_p", 0.0):
+        # a value that analyzes to no token at all (stop words only): the field is supplied but
+        # has no posting, no length and an empty vector
+        return rng.choice((u"the a an", u"of", u"and the"))
     if rng.random() < ctx.get("long_text_p", 0.08):
         n = rng.randint(19, 45)
     else:
@@ -233,11 +237,13 @@ class RunConfig(object):
         # how many document numbers ArrayUnionMatcher (Or of >= 3 clauses on small segments) scores
         # at a time (2048 in the library): small values make small segments span several parts
         self.aupart = rng.choice((2048, 2048, 4, 16, 64))
+        self.stopword_text_p = rng.choice((0.0, 0.0, 0.04, 0.15))
         for kk, vv in force.items():
             setattr(self, kk, vv)
 
     def ctx(self):
-        return {"vocab": self.vocab, "long_text_p": self.long_text_p}
+        return {"vocab": self.vocab, "long_text_p": self.long_text_p,
+                "stopword_text_p": getattr(self, "stopword_text_p", 0.0)}
 
     def make_schema(self, names=None):
         from whoosh import fields
@@ -265,6 +271,7 @@ class RunConfig(object):
                 "cbuf": getattr(self, "cbuf", 32768),
                 "offcut": getattr(self, "offcut", 32768),
                 "aupart": getattr(self, "aupart", 2048),
+                "stopword_text_p": getattr(self, "stopword_text_p", 0.0),
                 "long_text_p": self.long_text_p}
 
 
